@@ -906,6 +906,10 @@ class Interp:
                 a = get_path(a.cell.v, a.path)
             if isinstance(a, (Slice, VecV)):
                 return Int(len(a.elems), "usize")
+            if isinstance(a, Tup) and a.name == "StealerSlice":
+                return Int(len(a.fields), "usize")
+            if isinstance(a, Opaque):
+                raise Inconclusive("length of an opaque slice %r" % (a,))
             return UNIT
         raise Inconclusive("unop " + op)
 
